@@ -539,7 +539,8 @@ func c25Run(t *testing.T, mcs int, evs []string, verbose bool) (res c25Res) {
 			fail("handler-never-returns", "handlers %v still running after every handler was released", s.running)
 		}
 		for k := 1; k <= sent; k++ {
-			if accepted[k] && !disturbed[k] && !cancelled[k] && !clientClosed && !stopCalled && !peer.Closed() || (accepted[k] && !disturbed[k] && !cancelled[k] && !clientClosed && !stopCalled && gsCalled) {
+			// (a connection closed by the server is only expected after a GracefulStop, once everything finished)
+			if accepted[k] && !disturbed[k] && !cancelled[k] && !clientClosed && !stopCalled && (!peer.Closed() || gsCalled) {
 				want := strconv.Itoa(int(c25Code[k]))
 				if trailer[k] != want {
 					fail("accepted-rpc-not-completed", "RPC %d was sent before GracefulStop/Stop below the stream limit and stayed undisturbed, but the client saw trailers=%q rst=%v (want grpc-status %s); handler returned: %q", k, trailer[k], rstSeen[k], want, s.returned[k])
